@@ -95,6 +95,11 @@ func genFelts(r *hx.RNG, h map[string]int, max int) []felt.Felt {
 }
 
 func genString(r *hx.RNG) string {
+	// a Go string is any byte sequence: invalid UTF-8 is storable too (regression input for the decoder
+	// fix b7e794b: it used to make the whole record unreadable)
+	if r.Chance(10) {
+		return []string{"\xff", "bad \xff\xfe utf8", "\xc3", "ok\x80", "\xed\xa0\x80 surrogate", "\xf8\x88\x80\x80\x80"}[r.Intn(6)]
+	}
 	switch r.Intn(7) {
 	case 0:
 		return ""
@@ -156,6 +161,9 @@ func genHeader(r *hx.RNG, h map[string]int, number uint64, hash *felt.Felt, ntx,
 	}
 	if r.Chance(50) {
 		hd.Timestamp = r.U64()
+	}
+	if r.Chance(12) {
+		hd.ProtocolVersion = genString(r) // any string is storable, valid UTF-8 or not
 	}
 	if r.Chance(8) { // the count is a stored field of its own: it need not equal len(txs)
 		hd.TransactionCount = r.U64()
